@@ -1,11 +1,77 @@
-(* Props/C03.v -- property C03 (statements proved so far; see DESIGN.md section 7 C03). *)
-From Coq Require Import NArith List Bool.
-From NRF Require Import Env.Radio Env.RadioFacts.
+(* Props/C03.v -- property C03 (configuration attributes follow the documented encodings).
+   PARTIAL, see DESIGN.md section 7: proved are (1) for every configuration method, that it does to radio
+   `me` of ANY world exactly what it does to a bare configuration record, leaving every other radio's
+   configuration alone (simulation lemmas; a selection is restated here, all ~50 are in Drv/RF24SimOps.v),
+   and (2) the documented encoding of `channel` as a worked instance of the per-setter refinement
+   (`listen`/`open_tx_pipe` are in Props/C08.v, `__enter__`/`__exit__` in Props/C09.v).  The encodings of the
+   remaining setters are decided by the correspondence run and its documented-encoding checker. *)
+From Coq Require Import ZArith NArith List Bool.
+From NRF Require Import Env.Radio Env.RadioFacts Env.World Env.WorldFacts Env.CfgFacts Drv.RF24 Drv.RF24Sim Drv.RF24SimOps
+     Drv.CfgEval Drv.SetterFacts.
 Import ListNotations.
-Local Open Scope N_scope.
+Local Open Scope Z_scope.
 
-(* the STATUS byte a transfer shifts out is the radio's state BEFORE the command *)
 Theorem C03_status_is_pre_command : forall r cmd data,
-  hd 0 (snd (spi r (cmd :: data))) = status r.
+  hd 0%N (snd (spi r (cmd :: data))) = status r.
 Proof. exact spi_status_first. Qed.
 Print Assumptions C03_status_is_pre_command.
+
+(* channel = ch with 0 <= ch <= 125: RF_CH of this radio becomes ch, every other register, address and the CE line
+   keep their values, no other radio's configuration changes -- in every world *)
+Theorem C03_channel_encoding : forall me ch d w,
+  (me < length (radios w))%nat -> WfC (cview (get_radio w me)) -> 0 <= ch <= 125 ->
+  exists d1 w1, set_channel (WB me) ch d w = (Ok tt, d1, w1)
+    /\ cview (get_radio w1 me) = cset (cview (get_radio w me)) 5 (Z.to_N ch)
+    /\ (forall j, j <> me -> cview (get_radio w1 j) = cview (get_radio w j)).
+Proof. exact set_channel_world. Qed.
+Print Assumptions C03_channel_encoding.
+
+(* ... and outside that range ValueError is raised and no configuration of any radio changes *)
+Theorem C03_channel_rejects : forall me ch d w,
+  (me < length (radios w))%nat -> ~ (0 <= ch <= 125) ->
+  exists d1 w1, set_channel (WB me) ch d w = (Exn ValueError, d1, w1)
+    /\ (forall j, cview (get_radio w1 j) = cview (get_radio w j)).
+Proof. exact set_channel_world_rejects. Qed.
+Print Assumptions C03_channel_rejects.
+
+(* simulation: same result, same cached attributes (up to the status byte), same configuration of radio `me`,
+   every other radio's configuration untouched -- for arbitrary arguments, valid or not *)
+Theorem C03_sim_setters : forall me,
+  (forall v, sim me (set_data_rate (WB me) v) (set_data_rate CB v)) /\
+  (forall v, sim me (set_crc (WB me) v) (set_crc CB v)) /\
+  (forall v, sim me (set_pa_level (WB me) v) (set_pa_level CB v)) /\
+  (forall v, sim me (set_arc (WB me) v) (set_arc CB v)) /\
+  (forall v, sim me (set_ard (WB me) v) (set_ard CB v)) /\
+  (forall v, sim me (set_address_length (WB me) v) (set_address_length CB v)) /\
+  (forall v, sim me (set_auto_ack_attr (WB me) v) (set_auto_ack_attr CB v)) /\
+  (forall v, sim me (set_dynamic_payloads_attr (WB me) v) (set_dynamic_payloads_attr CB v)) /\
+  (forall v, sim me (set_payload_length_attr (WB me) v) (set_payload_length_attr CB v)) /\
+  (forall v, sim me (set_ack (WB me) v) (set_ack CB v)) /\
+  (forall v, sim me (set_power (WB me) v) (set_power CB v)) /\
+  (forall p a, sim me (open_rx_pipe (WB me) p a) (open_rx_pipe CB p a)) /\
+  (forall p, sim me (close_rx_pipe (WB me) p) (close_rx_pipe CB p)) /\
+  (forall a, sim me (open_tx_pipe (WB me) a) (open_tx_pipe CB a)) /\
+  (forall b, sim me (set_listen (WB me) b) (set_listen CB b)).
+Proof.
+  intro me.
+  exact (conj (sim_set_data_rate me) (conj (sim_set_crc me) (conj (sim_set_pa_level me) (conj (sim_set_arc me)
+        (conj (sim_set_ard me) (conj (sim_set_address_length me) (conj (sim_set_auto_ack_attr me)
+        (conj (sim_set_dynamic_payloads_attr me) (conj (sim_set_payload_length_attr me) (conj (sim_set_ack me)
+        (conj (sim_set_power me) (conj (sim_open_rx_pipe me) (conj (sim_close_rx_pipe me) (conj (sim_open_tx_pipe me)
+        (sim_set_listen me))))))))))))))).
+Qed.
+Print Assumptions C03_sim_setters.
+
+Theorem C03_sim_getters : forall me,
+  sim me (get_channel (WB me)) (get_channel CB) /\ sim me (get_data_rate (WB me)) (get_data_rate CB) /\
+  sim me (get_crc (WB me)) (get_crc CB) /\ sim me (get_pa_level (WB me)) (get_pa_level CB) /\
+  sim me (get_arc (WB me)) (get_arc CB) /\ sim me (get_ard (WB me)) (get_ard CB) /\
+  sim me (get_address_length (WB me)) (get_address_length CB) /\ sim me (get_power (WB me)) (get_power CB) /\
+  sim me (get_listen (WB me)) (get_listen CB) /\ sim me (get_ack (WB me)) (get_ack CB).
+Proof.
+  intro me.
+  exact (conj (sim_get_channel me) (conj (sim_get_data_rate me) (conj (sim_get_crc me) (conj (sim_get_pa_level me)
+        (conj (sim_get_arc me) (conj (sim_get_ard me) (conj (sim_get_address_length me) (conj (sim_get_power me)
+        (conj (sim_get_listen me) (sim_get_ack me)))))))))).
+Qed.
+Print Assumptions C03_sim_getters.
